@@ -831,7 +831,7 @@ def src_reads(e: ast.AST, src: str, env: dict[str, ast.expr], info: Optional['Cl
 
 
 COPYLIKE_METHODS = {'copy', 'copy_values', 'values', 'items', '__copy__', '__deepcopy__'}
-VALUE_CALLS = {'list', 'set', 'dict', 'tuple', 'frozenset', 'Vec', 'Array', 'sorted', 'attrs.evolve', 'attr.evolve',
+VALUE_CALLS = {'list', 'set', 'dict', 'tuple', 'frozenset', 'Vec', 'Array', 'sorted', 'intern', 'sys.intern', 'attrs.evolve', 'attr.evolve',
                'copy.copy', 'copy.deepcopy', 'dataclasses.replace'}
 _MODE_RANK = {'ident': 0, 'presence': 1, 'ordefault': 1, 'guard': 2, 'derived': 3}
 
@@ -1673,6 +1673,113 @@ def kv_receivers(tree: ast.Module) -> dict:
     return out
 
 
+# ---------------------------------------------------------------------------------------------- __getstate__ / __setstate__
+def pickle_state(cls: ast.ClassDef, info: 'ClassInfo', classes: dict[str, 'ClassInfo']) -> dict:
+    """The pickling pair of a class: from which field each position of the state tuple is built (`put`, for the long and
+    the short form) and into which field each position is unpacked (`get`).  Recognised shapes (anything else fails closed):
+      __getstate__:  locals bound once to tuple displays; `return <tuple display or such a local>` at the end and/or inside
+                     one `if`; `*local` splices a local tuple; every element reads exactly one field of self, by identity
+                     (through value calls such as intern(), under a presence test of the same field);
+      __setstate__:  `(self.a, self.b, ..., *rest) = state`, then `if rest: (self.x, ...) = rest  else: self.x = <const> ...`
+                     (or a plain `(self.a, ...) = state`)."""
+    lab = cls.name
+    gs, ss = _method(cls, '__getstate__'), _method(cls, '__setstate__')
+    if len(gs.args.args) != 1 or len(ss.args.args) != 2:
+        raise TranslateError(f'{lab}: unexpected signature of __getstate__/__setstate__')
+    tuples: dict[str, list[ast.expr]] = {}
+    returns: list[list[ast.expr]] = []
+
+    def elems(e: ast.expr) -> list[ast.expr]:
+        if isinstance(e, ast.Name) and e.id in tuples:
+            return list(tuples[e.id])
+        if not isinstance(e, ast.Tuple):
+            raise TranslateError(f'{lab}.__getstate__: state is not a tuple display `{ast.unparse(e)[:50]}`')
+        out: list[ast.expr] = []
+        for x in e.elts:
+            if isinstance(x, ast.Starred):
+                if not (isinstance(x.value, ast.Name) and x.value.id in tuples):
+                    raise TranslateError(f'{lab}.__getstate__: unknown splice `{ast.unparse(x)}`')
+                out += tuples[x.value.id]
+            else:
+                out.append(x)
+        return out
+
+    def scan_get(body: list[ast.stmt], depth: int) -> None:
+        for st in body:
+            if isinstance(st, ast.Expr) and isinstance(st.value, ast.Constant):
+                continue
+            if isinstance(st, (ast.Assign, ast.AnnAssign)):
+                t = st.targets[0] if isinstance(st, ast.Assign) and len(st.targets) == 1 else getattr(st, 'target', None)
+                if isinstance(t, ast.Name) and st.value is not None and t.id not in tuples:
+                    tuples[t.id] = elems(st.value)
+                    continue
+                raise TranslateError(f'{lab}.__getstate__: unrecognised assignment `{ast.unparse(st)[:50]}`')
+            if isinstance(st, ast.Return) and st.value is not None:
+                returns.append(elems(st.value))
+                continue
+            if isinstance(st, ast.If) and depth == 0:
+                scan_get(st.body, 1)
+                scan_get(st.orelse, 1)
+                continue
+            raise TranslateError(f'{lab}.__getstate__: unsupported statement `{ast.unparse(st)[:50]}`')
+    scan_get(gs.body, 0)
+    if not 1 <= len(returns) <= 2:
+        raise TranslateError(f'{lab}.__getstate__: {len(returns)} return statements')
+
+    def field_of(e: ast.expr) -> str:
+        fl = src_flows(e, 'self', {}, info, classes)
+        names = {f for f, _m in fl}
+        if len(names) != 1 or any(m not in ('ident', 'presence') for _f, m in fl) or not any(m == 'ident' for _f, m in fl):
+            raise TranslateError(f'{lab}.__getstate__: state element `{ast.unparse(e)[:50]}` is not one field by identity ({fl})')
+        return names.pop()
+    puts = sorted(([field_of(e) for e in r] for r in returns), key=len)
+    put_long, put_short = puts[-1], puts[0]
+
+    state = ss.args.args[1].arg
+    get_short: list[str] = []
+    get_tail: list[str] = []
+    defaults: dict[str, str] = {}
+    rest: Optional[str] = None
+    body = [st for st in ss.body if not (isinstance(st, ast.Expr) and isinstance(st.value, ast.Constant))]
+
+    def targets(t: ast.expr) -> tuple[list[str], Optional[str]]:
+        if not isinstance(t, ast.Tuple):
+            raise TranslateError(f'{lab}.__setstate__: unrecognised target `{ast.unparse(t)[:50]}`')
+        names, star = [], None
+        for k, x in enumerate(t.elts):
+            if isinstance(x, ast.Starred) and isinstance(x.value, ast.Name) and k == len(t.elts) - 1:
+                star = x.value.id
+            elif _self_attr(x) is not None:
+                names.append(_self_attr(x))
+            else:
+                raise TranslateError(f'{lab}.__setstate__: unrecognised target element `{ast.unparse(x)[:50]}`')
+        return names, star  # type: ignore[return-value]
+    if not body or not (isinstance(body[0], ast.Assign) and len(body[0].targets) == 1 and isinstance(body[0].value, ast.Name)
+                        and body[0].value.id == state):
+        raise TranslateError(f'{lab}.__setstate__: the first statement does not unpack the state')
+    get_short, rest = targets(body[0].targets[0])
+    if rest is None:
+        if len(body) != 1:
+            raise TranslateError(f'{lab}.__setstate__: statements after the unpacking')
+    else:
+        if len(body) != 2 or not (isinstance(body[1], ast.If) and isinstance(body[1].test, ast.Name) and body[1].test.id == rest
+                                  and len(body[1].body) == 1 and isinstance(body[1].body[0], ast.Assign)
+                                  and isinstance(body[1].body[0].value, ast.Name) and body[1].body[0].value.id == rest):
+            raise TranslateError(f'{lab}.__setstate__: expected `if {rest}: (...) = {rest} else: defaults`')
+        get_tail, star2 = targets(body[1].body[0].targets[0])
+        if star2 is not None:
+            raise TranslateError(f'{lab}.__setstate__: nested splice')
+        for st in body[1].orelse:
+            f = _self_attr(st.targets[0]) if isinstance(st, ast.Assign) and len(st.targets) == 1 else None
+            if f is None or not isinstance(st.value, (ast.Constant, ast.UnaryOp)) or f in defaults:
+                raise TranslateError(f'{lab}.__setstate__: unrecognised default `{ast.unparse(st)[:50]}`')
+            defaults[f] = ast.unparse(st.value)
+        if sorted(defaults) != sorted(get_tail):
+            raise TranslateError(f'{lab}.__setstate__: the short form restores {sorted(defaults)}, the long form {sorted(get_tail)}')
+    return {'put': put_long, 'put_short': put_short if len(returns) == 2 else put_long, 'get': get_short + get_tail,
+            'get_short': get_short if rest is not None else get_short + get_tail, 'defaults': defaults}
+
+
 # ---------------------------------------------------------------------------------------------- main
 VMF_CLASSES = ['Camera', 'Cordon', 'VisGroup', 'Solid', 'UVAxis', 'DispVertex', 'Side', 'Entity', 'FixupValue', 'EntityFixup',
                'EntityGroup', 'Output']
@@ -1733,6 +1840,14 @@ def translate() -> tuple[str, dict]:
     lines.append('Definition all_flows : list (string * flowmap) := [')
     lines.append(';\n'.join(f'  ("{c.label}", flows_{c.label})' for c in censuses))
     lines.append('].')
+    # the pickling pair of Output (copy.copy / copy.deepcopy / pickle go through it)
+    ps = pickle_state(classes['Output'].node, classes['Output'], classes)
+    side['pickle_state'] = {'Output': ps}
+    sl = lambda l: '[' + '; '.join(f'"{x}"' for x in l) + ']'
+    lines += [f'Definition output_state_put : list string := {sl(ps["put"])}.',
+              f'Definition output_state_get : list string := {sl(ps["get"])}.',
+              f'Definition output_state_put_short : list string := {sl(ps["put_short"])}.',
+              f'Definition output_state_get_short : list string := {sl(ps["get_short"])}.']
     lines.append('Definition cond_rows : list (string * string * how * how) := [')
     lines.append(';\n'.join(f'  ("{c.label}", "{f}", {a}, {b})' for c in censuses for f, (a, b) in sorted(c.cond_parts.items())))
     lines.append('].')
